@@ -308,7 +308,8 @@ func Run(c *corr.Ctx) {
 		"changed by grammar-level mutations (header deletion / duplication / odd values, Transport / Session / KeyMgmt / SDP inconsistencies, " +
 		"reordering, duplication, frames in every state, limits) and truncation at every offset; per step the answer (status / close), the " +
 		"callbacks and the sizes of the server's tables are compared with the Lean ledger model.  property oracle: scenarios in child processes — " +
-		"a published stream, a well-behaved client that keeps playing, 1–4 simultaneous hostile peers (special attacks, grammar-level and byte-level " +
+		"a published stream, a well-behaved client that keeps playing, 1–4 simultaneous hostile peers (special attacks incl. well-formed RTP / RTCP in the wrong direction " +
+		"on every channel and as UDP datagrams in every state, request floods on plain / HTTP- / WebSocket-tunnelled players while the publisher hammers, grammar-level and byte-level " +
 		"mutations): no crash, every silent peer closed in time, the good client served all along, a fresh client served afterwards, tables and " +
 		"goroutines back to the baseline.  a case is non-trivial when it has more than two steps; distinct = distinct op-line sequences / scenarios")
 	r := &runner{c: c}
